@@ -433,6 +433,8 @@ def mutex_lock(ex, st, th, a):
         return 0
     st.mutex[m] = th.tid
     _held(st, th.tid).add(m)
+    if ex.race_detect:
+        ex.vc_acquire(st, th.tid, ('m', m))
     return 0
 
 
@@ -452,6 +454,10 @@ def _unlock(ex, st, th, m):
         raise PathEnd('memory', 'unlock of mutex 0x%x not held by thread %s' % (m, th.name or th.tid))
     del st.mutex[m]
     _held(st, th.tid).discard(m)
+    if ex.race_detect:
+        ex.vc_release(st, th.tid, ('m', m))
+    if ex.preempt_bound:
+        st.preempt_pending = True
     for t in st.threads:
         if t.status == 'mutex' and t.wait == m:
             t.status = 'run'
@@ -547,6 +553,13 @@ def thread_start(ex, st, th, a):
         o = st.wobj(o)
         o.tag = 'thread_state'
     st.flags['threads_created'] = st.flags.get('threads_created', 0) + 1
+    if ex.race_detect:
+        pv = ex.vc_of(st, th.tid)
+        st.vc[tid] = dict(pv)
+        st.vc[tid][tid] = 1
+        pv[th.tid] = pv.get(th.tid, 0) + 1
+    if ex.preempt_bound:
+        st.preempt_pending = True
     hook = ex.hooks.get('thread_start')
     if hook is not None:
         hook(ex, st, th, t)
@@ -564,6 +577,10 @@ def thread_join(ex, st, th, a):
     t = st.threads[tid]
     if t.status != 'done' and (t.frames or t.status != 'run'):
         ex.block(st, th, 'join', tid)
+    elif ex.race_detect:
+        if t.status != 'done':
+            ex.vc_release(st, t.tid, ('t', t.tid))
+        ex.vc_acquire(st, th.tid, ('t', tid))
     return None
 
 
